@@ -8,7 +8,9 @@
 //!       in-process mirror or not conformant, plus a seeded sample of K others, or all with --all) and
 //!       prints a JSON summary on stdout. The mirror and the conformance comparison never decide.
 //!   eyeballs one --in <file.json> --out <file.ndjson>     re-run the scenarios of a replay file
-//!   eyeballs tcp --out <file.ndjson>                      TCP layer through TcpTransport::connect_to_addrs
+//!   eyeballs tcp --out <file.ndjson> [--vec <TCPVEC file>] [--tier quick|thorough] [--only <replay.json>]
+//!       TCP layer: named loopback rows + every realizable vector of spec/TcpEyeballs.tla through
+//!       TcpTransport::connect_to_addrs / Service::call (outcome-level observations)
 //!
 //! Panics of the code under test are caught and recorded as kind "panic".
 use futures_util::FutureExt as _;
@@ -389,7 +391,8 @@ struct Outcome {
 }
 
 fn cmd_run(args: &[String]) {
-    let vec_path = arg(args, "--vec").expect("--vec");
+    let vec_paths: Vec<String> = args.iter().enumerate().filter(|(_, a)| *a == "--vec").filter_map(|(i, _)| args.get(i + 1).cloned()).collect();
+    assert!(!vec_paths.is_empty(), "--vec");
     let out_dir = arg(args, "--out").expect("--out");
     let seed: u64 = arg(args, "--seed").map(|s| s.parse().unwrap()).unwrap_or(1);
     let sample: usize = arg(args, "--sample").map(|s| s.parse().unwrap()).unwrap_or(5000);
@@ -397,23 +400,25 @@ fn cmd_run(args: &[String]) {
     let threads: usize = arg(args, "--threads").map(|s| s.parse().unwrap()).unwrap_or(4);
 
     // 1. read (scenario, allowed observation) pairs printed by TLC
-    let f = std::io::BufReader::new(std::fs::File::open(&vec_path).unwrap_or_else(|e| panic!("open {vec_path}: {e}")));
     let mut map: BTreeMap<String, Case> = BTreeMap::new();
     let mut pairs = 0usize;
-    for line in f.lines() {
-        let line = line.unwrap();
-        let Some(rest) = line.strip_prefix("<<\"VEC\", ") else { continue };
-        let Some(inner) = rest.strip_suffix(">>") else { continue };
-        let js: String = serde_json::from_str(inner).expect("VEC payload is a TLA+ string");
-        let rec: Value = serde_json::from_str(&js).expect("VEC payload json");
-        let key = serde_json::to_string(&rec["v"]).unwrap();
-        let o = Obs::from_json(&rec["o"]);
-        pairs += 1;
-        map.entry(key.clone()).or_insert_with(|| Case { key, allowed: vec![] }).allowed.push(o);
+    for vec_path in &vec_paths {
+        let f = std::io::BufReader::new(std::fs::File::open(vec_path).unwrap_or_else(|e| panic!("open {vec_path}: {e}")));
+        for line in f.lines() {
+            let line = line.unwrap();
+            let Some(rest) = line.strip_prefix("<<\"VEC\", ") else { continue };
+            let Some(inner) = rest.strip_suffix(">>") else { continue };
+            let js: String = serde_json::from_str(inner).expect("VEC payload is a TLA+ string");
+            let rec: Value = serde_json::from_str(&js).expect("VEC payload json");
+            let key = serde_json::to_string(&rec["v"]).unwrap();
+            let o = Obs::from_json(&rec["o"]);
+            pairs += 1;
+            map.entry(key.clone()).or_insert_with(|| Case { key, allowed: vec![] }).allowed.push(o);
+        }
     }
     let cases: Vec<Case> = map.into_values().collect();
     if cases.is_empty() {
-        eprintln!("no VEC lines in {vec_path}");
+        eprintln!("no VEC lines in {vec_paths:?}");
         std::process::exit(3);
     }
 
@@ -475,6 +480,7 @@ fn cmd_run(args: &[String]) {
     let (mut f10, mut f11, mut inexact) = (0usize, 0usize, 0usize);
     let mut nontrivial = 0usize;
     let mut conc0 = 0usize;
+    let mut n4 = 0usize;
     for (c, o) in cases.iter().zip(outcomes.iter()) {
         *kinds.entry(o.obs.kind.to_string()).or_default() += 1;
         let scn = c.scn();
@@ -494,6 +500,9 @@ fn cmd_run(args: &[String]) {
         if scn.conc == 0 && scn.n > 0 {
             conc0 += 1;
         }
+        if scn.n >= 4 {
+            n4 += 1;
+        }
     }
     let samples: Vec<Value> = [0usize, cases.len() / 3, cases.len() / 2, cases.len() - 1]
         .iter()
@@ -504,7 +513,7 @@ fn cmd_run(args: &[String]) {
         "{}",
         json!({"pairs": pairs, "scenarios": cases.len(), "selected": nsel, "conform": cases.len() - ndrift, "drift": ndrift,
                "drift_examples": drift, "mirror_flag_c10": f10, "mirror_flag_c11": f11, "inexact_time": inexact,
-               "kinds": kinds, "nontrivial": nontrivial, "conc0_scenarios": conc0, "samples": samples, "threads": nthreads})
+               "kinds": kinds, "nontrivial": nontrivial, "conc0_scenarios": conc0, "scenarios_with_4_attempts": n4, "samples": samples, "threads": nthreads})
     );
 }
 
@@ -531,34 +540,66 @@ fn cmd_one(args: &[String]) {
 }
 
 // -------------------------------------------------------------------------------------------------
-// TCP layer: TcpTransport::connect_to_addrs against loopback ports. One-sided observations only.
+// TCP layer: TcpTransport::connect_to_addrs / Service::call against loopback ports.
+// OUTCOME-level observations (which candidate was connected / class of the error); the only timing facts
+// recorded are one-sided (elapsed time, used for "never earlier" lower bounds and "timeout => deadline reached").
 mod tcp {
     use super::*;
     use hyperdriver::client::conn::transport::tcp::{TcpTransport, TcpTransportConfig};
-    use std::net::SocketAddr;
+    use std::collections::BTreeSet;
+    use std::net::{IpAddr, Ipv4Addr, Ipv6Addr, SocketAddr};
     use tokio::net::{TcpListener, TcpSocket, TcpStream as TokioStream};
 
-    pub struct Env {
-        pub listeners: Vec<TcpListener>,
-        pub _fill: Vec<TokioStream>,
-        pub never: Option<SocketAddr>,
-        pub _never_l: Option<TcpListener>,
-        pub bound: Vec<TcpSocket>,
+    /// documentation addresses no host owns: binding a socket to them fails (EADDRNOTAVAIL)
+    const BOGUS_V4: Ipv4Addr = Ipv4Addr::new(192, 0, 2, 77);
+    const BOGUS_V6: Ipv6Addr = Ipv6Addr::new(0x2001, 0xdb8, 0, 0, 0, 0, 0xdead, 0xbeef);
+    const UNIT_MS: i64 = 500; // one model time unit of spec/MC_TcpEyeballs.tla
+
+    #[derive(Clone, Copy, PartialEq, Eq, Debug)]
+    enum Bind {
+        None,
+        BogusV4,        // only local_address_ipv4 = BOGUS_V4 (prefers IPv4)
+        BogusV6,        // only local_address_ipv6 = BOGUS_V6 (prefers IPv6)
+        V6OkBogusV4,    // local_address_ipv6 = ::1, local_address_ipv4 = BOGUS_V4 (prefers IPv6)
     }
 
-    /// A port that refuses connections: a socket that is bound (so nobody else can take the port while the
-    /// scenario runs) but never listens.
-    fn closed_port(env: &mut Env) -> SocketAddr {
-        let s = TcpSocket::new_v4().unwrap();
-        s.bind("127.0.0.1:0".parse().unwrap()).unwrap();
+    #[derive(Clone, Debug)]
+    struct Row {
+        name: String,
+        cands: Vec<(u8, &'static str)>, // (family, "ok" | "err" | "never"), in resolver order
+        bind: Bind,
+        tmo: i64,
+        conc: i64,
+        api: &'static str, // "addrs" | "call"
+        allowed: Option<BTreeSet<(String, i64, String)>>, // outcomes the model allows (generated rows)
+    }
+
+    pub struct Env {
+        listeners: Vec<TcpListener>,
+        fill: Vec<TokioStream>,
+        never: Vec<(SocketAddr, TcpListener)>,
+        bound: Vec<TcpSocket>,
+        v6: bool,
+        bogus_v4: bool,
+        bogus_v6: bool,
+    }
+
+    fn lo(f: u8) -> IpAddr {
+        if f == 4 { IpAddr::V4(Ipv4Addr::LOCALHOST) } else { IpAddr::V6(Ipv6Addr::LOCALHOST) }
+    }
+
+    /// A port that refuses connections: bound (nobody else can take it meanwhile) but never listening.
+    fn closed_port(env: &mut Env, f: u8) -> SocketAddr {
+        let s = if f == 4 { TcpSocket::new_v4().unwrap() } else { TcpSocket::new_v6().unwrap() };
+        s.bind(SocketAddr::new(lo(f), 0)).unwrap();
         let a = s.local_addr().unwrap();
         env.bound.push(s);
         a
     }
 
     /// A loopback port that does not answer: a listener with backlog 1 that never accepts and whose accept
-    /// queue has been filled. Returns None when the kernel does not behave that way here.
-    async fn never_port(env: &mut Env) {
+    /// queue has been filled, so further SYNs are dropped.
+    async fn never_port(env: &mut Env) -> bool {
         let s = TcpSocket::new_v4().unwrap();
         s.bind("127.0.0.1:0".parse().unwrap()).unwrap();
         let l = s.listen(1).unwrap();
@@ -566,7 +607,7 @@ mod tcp {
         let mut saturated = false;
         for _ in 0..16 {
             match tokio::time::timeout(Duration::from_millis(250), TokioStream::connect(a)).await {
-                Ok(Ok(c)) => env._fill.push(c),
+                Ok(Ok(c)) => env.fill.push(c),
                 Ok(Err(_)) => break,
                 Err(_) => {
                     saturated = true;
@@ -574,114 +615,316 @@ mod tcp {
                 }
             }
         }
-        if saturated {
-            // confirm with a second probe
-            if tokio::time::timeout(Duration::from_millis(250), TokioStream::connect(a)).await.is_err() {
-                env.never = Some(a);
-            }
+        let ok = saturated && tokio::time::timeout(Duration::from_millis(250), TokioStream::connect(a)).await.is_err();
+        if ok {
+            env.never.push((a, l));
         }
-        env._never_l = Some(l);
+        ok
     }
 
-    fn classify(msg: &str) -> &'static str {
+    fn bind_fails(addr: IpAddr) -> bool {
+        let s = if addr.is_ipv4() { TcpSocket::new_v4() } else { TcpSocket::new_v6() };
+        match s {
+            Ok(s) => s.bind(SocketAddr::new(addr, 0)).is_err(),
+            Err(_) => true,
+        }
+    }
+
+    fn config(r: &Row) -> TcpTransportConfig {
+        let mut cfg = TcpTransportConfig::default();
+        cfg.happy_eyeballs_timeout = if r.tmo < 0 { None } else { Some(Duration::from_millis(r.tmo as u64)) };
+        cfg.happy_eyeballs_concurrency = if r.conc < 0 { None } else { Some(r.conc as usize) };
+        cfg.connect_timeout = Some(Duration::from_secs(20));
+        match r.bind {
+            Bind::None => {}
+            Bind::BogusV4 => cfg.local_address_ipv4 = Some(BOGUS_V4),
+            Bind::BogusV6 => cfg.local_address_ipv6 = Some(BOGUS_V6),
+            Bind::V6OkBogusV4 => {
+                cfg.local_address_ipv6 = Some(Ipv6Addr::LOCALHOST);
+                cfg.local_address_ipv4 = Some(BOGUS_V4);
+            }
+        }
+        cfg
+    }
+
+    fn setup_fails(bind: Bind, f: u8) -> bool {
+        matches!((bind, f), (Bind::BogusV4, 4) | (Bind::V6OkBogusV4, 4) | (Bind::BogusV6, 6))
+    }
+
+    fn classify(msg: &str) -> (&'static str, &'static str) {
         if msg.contains("Exhausted connection candidates") {
-            "noprogress"
+            ("noprogress", "")
         } else if msg.starts_with("Connection attempts timed out after") {
-            "timeout"
+            ("timeout", "")
         } else if msg.contains("tcp connect error") {
-            "err"
+            ("err", "connect")
+        } else if msg.contains("tcp bind local address") || msg.contains("tcp open error") || msg.contains("tcp set_nonblocking error") {
+            ("err", "setup")
         } else {
-            "other"
+            ("other", "")
         }
     }
 
-    pub async fn run(out: &str) {
-        let mut env = Env { listeners: vec![], _fill: vec![], never: None, _never_l: None, bound: vec![] };
-        never_port(&mut env).await;
-        // scenario table: (outcomes, he_timeout ms or -1, concurrency or -1)
-        let mut table: Vec<(Vec<&str>, i64, i64)> = vec![
-            (vec![], 30000, 2),
-            (vec![], -1, -1),
-            (vec!["err"], 30000, 2),
-            (vec!["err", "err", "err"], 30000, 2),
-            (vec!["err", "err", "err"], -1, 1),
-            (vec!["err", "err"], 30000, -1),
-            (vec!["ok"], 30000, 2),
-            (vec!["err", "ok"], 30000, 2),
-            (vec!["err", "ok"], 30000, 1),
-            (vec!["err", "ok"], -1, 1),
-            (vec!["err", "err", "ok"], 30000, 1),
-            (vec!["err", "err", "ok"], -1, -1),
-            (vec!["ok", "err"], 30000, 1),
-            (vec!["ok", "ok"], 30000, -1),
-            (vec!["err", "ok", "err", "ok"], 30000, 0),
-        ];
-        if env.never.is_some() {
-            table.extend(vec![
-                (vec!["never", "ok"], 600, 1),
-                (vec!["never", "never", "ok"], 900, 1),
-                (vec!["never", "ok"], 600, 2),
-                (vec!["never", "err", "ok"], 900, 1),
-                (vec!["never"], 300, 2),
-                (vec!["never", "never"], 400, 1),
-                (vec!["never", "ok"], 400, 0),
-            ]);
+    /// A resolver double answering every host with a fixed list (ports are rewritten by the transport).
+    #[derive(Clone)]
+    struct FixedResolver(Vec<SocketAddr>);
+    impl tower::Service<Box<str>> for FixedResolver {
+        type Response = hyperdriver::client::conn::dns::SocketAddrs;
+        type Error = std::io::Error;
+        type Future = std::future::Ready<Result<Self::Response, std::io::Error>>;
+        fn poll_ready(&mut self, _: &mut Context<'_>) -> Poll<Result<(), std::io::Error>> {
+            Poll::Ready(Ok(()))
         }
-        let mut w = std::io::BufWriter::new(std::fs::File::create(out).unwrap());
-        let mut n = 0;
-        for (ocs, tmo, conc) in table {
-            let mut addrs: Vec<SocketAddr> = vec![];
-            for oc in &ocs {
-                match *oc {
-                    "ok" => {
-                        let l = TcpListener::bind("127.0.0.1:0").await.unwrap();
-                        addrs.push(l.local_addr().unwrap());
-                        env.listeners.push(l);
-                    }
-                    "err" => addrs.push(closed_port(&mut env)),
-                    _ => addrs.push(env.never.unwrap()),
-                }
+        fn call(&mut self, _host: Box<str>) -> Self::Future {
+            std::future::ready(Ok(self.0.iter().copied().collect()))
+        }
+    }
+
+    /// The order in which the real transport hands the candidates to the set (verif-hooks plan of the real
+    /// sorting code), as indices into `cands`.
+    fn plan_order(r: &Row) -> Vec<usize> {
+        let transport: TcpTransport = TcpTransport::builder().with_config(config(r)).with_gai_resolver().build();
+        let addrs: Vec<SocketAddr> = r
+            .cands
+            .iter()
+            .enumerate()
+            .map(|(i, (f, _))| {
+                let ip = if *f == 4 { IpAddr::V4(Ipv4Addr::new(10, 0, 0, i as u8 + 1)) } else { IpAddr::V6(Ipv6Addr::new(0xfd00, 0, 0, 0, 0, 0, 0, i as u16 + 1)) };
+                SocketAddr::new(ip, 1)
+            })
+            .collect();
+        transport
+            .verif_plan(addrs, 1)
+            .iter()
+            .map(|a| match a.ip() {
+                IpAddr::V4(x) => x.octets()[3] as usize - 1,
+                IpAddr::V6(x) => x.segments()[7] as usize - 1,
+            })
+            .collect()
+    }
+
+    async fn run_row(env: &mut Env, r: &Row, sid: usize) -> Option<Value> {
+        // preconditions of the environment; a row that cannot be realized here is skipped (and counted)
+        let needs_v6 = r.cands.iter().any(|c| c.0 == 6) || matches!(r.bind, Bind::V6OkBogusV4);
+        if needs_v6 && !env.v6 {
+            return None;
+        }
+        if matches!(r.bind, Bind::BogusV4 | Bind::V6OkBogusV4) && !env.bogus_v4 || r.bind == Bind::BogusV6 && !env.bogus_v6 {
+            return None;
+        }
+        let nnever = r.cands.iter().filter(|c| c.1 == "never").count();
+        while env.never.len() < nnever {
+            if !never_port(env).await {
+                return None;
             }
-            let mut cfg = TcpTransportConfig::default();
-            cfg.happy_eyeballs_timeout = if tmo < 0 { None } else { Some(Duration::from_millis(tmo as u64)) };
-            cfg.happy_eyeballs_concurrency = if conc < 0 { None } else { Some(conc as usize) };
-            cfg.connect_timeout = Some(Duration::from_secs(20));
-            let transport: TcpTransport = TcpTransport::builder().with_config(cfg).with_gai_resolver().build();
-            let t = std::time::Instant::now();
-            let r = AssertUnwindSafe(transport.connect_to_addrs(addrs.clone())).catch_unwind().await;
-            let elapsed = t.elapsed().as_millis() as i64;
-            let (kind, id, msg) = match r {
-                Err(_) => ("panic".to_string(), 0usize, String::new()),
-                Ok(Ok(s)) => {
-                    let peer = s.peer_addr().ok();
-                    // with a repeated "never" address the first matching index is reported; ok addresses are unique
-                    let id = peer.and_then(|p| addrs.iter().position(|a| *a == p)).map(|p| p + 1).unwrap_or(0);
-                    ("ok".to_string(), id, String::new())
+        }
+        let call = r.api == "call";
+        // "call": every candidate shares the request port, so at most one distinct (family, kind) role per family
+        let mut addrs: Vec<SocketAddr> = vec![];
+        let mut shared_port: Option<u16> = None;
+        let mut nv = 0;
+        for (f, kind) in &r.cands {
+            let a = match *kind {
+                "ok" => {
+                    let bind_addr = match (call, shared_port) {
+                        (true, Some(p)) => SocketAddr::new(lo(*f), p),
+                        _ => SocketAddr::new(lo(*f), 0),
+                    };
+                    let l = TcpListener::bind(bind_addr).await.ok()?;
+                    let a = l.local_addr().unwrap();
+                    env.listeners.push(l);
+                    a
                 }
-                Ok(Err(e)) => {
-                    let m = e.to_string();
-                    (classify(&m).to_string(), 0, m)
+                "err" => closed_port(env, *f),
+                _ => {
+                    nv += 1;
+                    env.never[nv - 1].0
                 }
             };
-            // lower bound on the stagger: when candidates 1..id-1 never answer and id is beyond the initial batch,
-            // id cannot have been started before (id - batch) * (timeout / n)
-            let nn = ocs.len() as i64;
-            let batch = if conc < 0 { nn } else { conc.max(1).min(nn) };
-            let mut lb = NONE;
-            if kind == "ok" && tmo >= 0 && (id as i64) > batch && ocs[..id - 1].iter().all(|o| *o == "never") {
-                lb = (id as i64 - batch) * (tmo / nn);
+            if call && shared_port.is_none() {
+                shared_port = Some(a.port());
             }
-            n += 1;
-            serde_json::to_writer(
-                &mut w,
-                &json!({"sid": n, "layer": "tcp", "v": {"n": ocs.len(), "oc": ocs, "tmoMs": tmo, "conc": conc},
-                        "o": {"kind": kind, "id": id, "elapsedMs": elapsed, "delayLbMs": lb}, "msg": msg}),
-            )
-            .unwrap();
-            w.write_all(b"\n").unwrap();
+            addrs.push(a);
+        }
+        let order = plan_order(r);
+        let oc: Vec<&str> = order.iter().map(|&i| if setup_fails(r.bind, r.cands[i].0) { "setuperr" } else { r.cands[i].1 }).collect();
+        let planned: Vec<SocketAddr> = order.iter().map(|&i| addrs[i]).collect();
+        let t = std::time::Instant::now();
+        let res: Result<Result<Option<SocketAddr>, String>, ()> = if call {
+            use tower::ServiceExt as _;
+            let port = shared_port.unwrap_or(9);
+            let answer: Vec<SocketAddr> = addrs.iter().map(|a| SocketAddr::new(a.ip(), 7)).collect();
+            let transport: TcpTransport<FixedResolver> = TcpTransport::builder().with_config(config(r)).with_resolver(FixedResolver(answer)).build();
+            let (parts, _) = http::Request::builder().uri(format!("http://candidates.test:{port}/")).body(()).unwrap().into_parts();
+            AssertUnwindSafe(transport.oneshot(parts)).catch_unwind().await.map(|r| r.map(|s| s.peer_addr().ok()).map_err(|e| e.to_string())).map_err(|_| ())
+        } else {
+            let transport: TcpTransport = TcpTransport::builder().with_config(config(r)).with_gai_resolver().build();
+            AssertUnwindSafe(transport.connect_to_addrs(addrs.clone())).catch_unwind().await.map(|r| r.map(|s| s.peer_addr().ok()).map_err(|e| e.to_string())).map_err(|_| ())
+        };
+        let elapsed = t.elapsed().as_millis() as i64;
+        let (kind, id, errclass, msg) = match res {
+            Err(()) => ("panic".to_string(), 0usize, "".to_string(), String::new()),
+            Ok(Ok(peer)) => {
+                let id = peer.and_then(|p| planned.iter().position(|a| *a == p)).map(|p| p + 1).unwrap_or(0);
+                ("ok".to_string(), id, "".to_string(), String::new())
+            }
+            Ok(Err(m)) => {
+                let (k, c) = classify(&m);
+                (k.to_string(), 0, c.to_string(), m)
+            }
+        };
+        let conform = r.allowed.as_ref().map(|a| a.contains(&(kind.clone(), id as i64, errclass.clone())));
+        Some(json!({"sid": sid, "layer": "tcp", "name": r.name, "api": r.api,
+                    "v": {"n": oc.len(), "oc": oc, "tmoMs": r.tmo, "conc": r.conc},
+                    "o": {"kind": kind, "id": id, "errclass": errclass, "elapsedMs": elapsed},
+                    "conform": conform.unwrap_or(true), "from_model": conform.is_some(), "msg": msg, "bind": format!("{:?}", r.bind),
+                    "families": order.iter().map(|&i| r.cands[i].0).collect::<Vec<_>>()}))
+    }
+
+    fn compact(oc: &[String], tmo: i64, conc: i64) -> String {
+        format!("{}:t{}:c{}", oc.join(","), tmo, conc)
+    }
+
+    /// Realize a model vector (candidate outcomes in hand-over order) on loopback: set-up errors are IPv4 candidates
+    /// under a bogus local IPv4 address, everything else IPv6 (::1); without set-up errors everything is IPv4.
+    fn realize(oc: &[String], tmo_units: i64, conc: i64, allowed: BTreeSet<(String, i64, String)>) -> Option<Row> {
+        let has_setup = oc.iter().any(|o| o == "setuperr");
+        let cands: Vec<(u8, &'static str)> = oc
+            .iter()
+            .map(|o| match o.as_str() {
+                "setuperr" => (4u8, "err"),
+                "ok" => (if has_setup { 6 } else { 4 }, "ok"),
+                "err" => (if has_setup { 6 } else { 4 }, "err"),
+                _ => (if has_setup { 6 } else { 4 }, "never"),
+            })
+            .collect();
+        let tmo = if tmo_units < 0 { -1 } else { tmo_units * UNIT_MS };
+        let name = compact(oc, tmo, conc);
+        let binds: &[Bind] = if has_setup { &[Bind::BogusV4, Bind::V6OkBogusV4] } else { &[Bind::None] };
+        for &bind in binds {
+            let row = Row { name: name.clone(), cands: cands.clone(), bind, tmo, conc, api: "addrs", allowed: Some(allowed.clone()) };
+            // realizable iff the real sorting code keeps the hand-over order
+            if plan_order(&row) == (0..cands.len()).collect::<Vec<_>>() {
+                return Some(row);
+            }
+        }
+        None
+    }
+
+    fn named_rows(tier: &str) -> Vec<Row> {
+        let r = |name: &str, cands: Vec<(u8, &'static str)>, bind: Bind, tmo: i64, conc: i64, api: &'static str| Row { name: name.to_string(), cands, bind, tmo, conc, api, allowed: None };
+        let mut rows = vec![
+            // one candidate's local set-up fails (bind to an address the host does not own), the other family is live
+            r("setup-error-other-family", vec![(6, "ok"), (4, "ok")], Bind::BogusV6, 30000, 2, "addrs"),
+            r("setup-error-other-family/call", vec![(6, "ok"), (4, "ok")], Bind::BogusV6, 30000, 2, "call"),
+            r("setup-error-other-family-v4", vec![(4, "ok"), (6, "ok")], Bind::BogusV4, 30000, 2, "addrs"),
+            r("setup-error-other-family-v4/call", vec![(4, "ok"), (6, "ok")], Bind::BogusV4, 30000, 2, "call"),
+            r("setup-error-other-family/conc1", vec![(6, "ok"), (4, "ok")], Bind::BogusV6, 30000, 1, "addrs"),
+            r("setup-error-only-family", vec![(6, "ok")], Bind::BogusV6, 30000, 2, "addrs"),
+            // the first two candidates never answer, the third is live: succeeds after one stagger interval
+            r("blackholed-first-two", vec![(4, "never"), (4, "never"), (4, "ok")], Bind::None, 3000, 2, "addrs"),
+            r("blackholed-first/conc1", vec![(4, "never"), (4, "ok")], Bind::None, 600, 1, "addrs"),
+        ];
+        if tier == "thorough" {
+            rows.extend(vec![
+                r("blackholed-first-two/conc1", vec![(4, "never"), (4, "never"), (4, "ok")], Bind::None, 900, 1, "addrs"),
+                r("blackholed-first/conc2", vec![(4, "never"), (4, "ok")], Bind::None, 600, 2, "addrs"),
+                r("blackholed-refused-live/conc1", vec![(4, "never"), (4, "err"), (4, "ok")], Bind::None, 900, 1, "addrs"),
+                r("blackholed-only", vec![(4, "never")], Bind::None, 300, 2, "addrs"),
+                r("blackholed-both/conc1", vec![(4, "never"), (4, "never")], Bind::None, 400, 1, "addrs"),
+                r("blackholed-first/conc0", vec![(4, "never"), (4, "ok")], Bind::None, 400, 0, "addrs"),
+            ]);
+        }
+        rows
+    }
+
+    fn read_tcpvec(path: &str) -> Vec<(Vec<String>, i64, i64, BTreeSet<(String, i64, String)>)> {
+        let f = std::io::BufReader::new(std::fs::File::open(path).unwrap_or_else(|e| panic!("open {path}: {e}")));
+        let mut map: BTreeMap<String, (Vec<String>, i64, i64, BTreeSet<(String, i64, String)>)> = BTreeMap::new();
+        for line in f.lines() {
+            let line = line.unwrap();
+            let Some(rest) = line.strip_prefix("<<\"TCPVEC\", ") else { continue };
+            let Some(inner) = rest.strip_suffix(">>") else { continue };
+            let js: String = serde_json::from_str(inner).expect("TCPVEC payload");
+            let rec: Value = serde_json::from_str(&js).expect("TCPVEC json");
+            let n = rec["v"]["n"].as_u64().unwrap() as usize;
+            let oc: Vec<String> = rec["v"]["oc"].as_array().unwrap().iter().take(n).map(|x| x.as_str().unwrap().to_string()).collect();
+            let tmo = rec["v"]["tmoMs"].as_i64().unwrap();
+            let conc = rec["v"]["conc"].as_i64().unwrap();
+            let o = (rec["o"]["kind"].as_str().unwrap().to_string(), rec["o"]["id"].as_i64().unwrap(), rec["o"]["errclass"].as_str().unwrap().to_string());
+            let key = format!("{}|{}", oc.len(), compact(&oc, tmo, conc));
+            map.entry(key).or_insert_with(|| (oc, tmo, conc, BTreeSet::new())).3.insert(o);
+        }
+        map.into_values().collect()
+    }
+
+    pub async fn run(args: &[String]) {
+        let out = arg(args, "--out").expect("--out");
+        let tier = arg(args, "--tier").unwrap_or_else(|| "quick".into());
+        let only: Option<BTreeSet<String>> = arg(args, "--only").map(|p| {
+            let doc: Value = serde_json::from_str(&std::fs::read_to_string(&p).unwrap()).expect("replay json");
+            let root = if doc.get("replay").is_some() { doc["replay"].clone() } else { doc };
+            root["records"].as_array().map(|a| a.iter().filter_map(|r| r["name"].as_str().map(|s| s.to_string())).collect()).unwrap_or_default()
+        });
+        let v6 = async {
+            let l = TcpListener::bind("[::1]:0").await.ok()?;
+            TokioStream::connect(l.local_addr().ok()?).await.ok()?;
+            Some(())
+        }
+        .await
+        .is_some();
+        let mut env = Env { listeners: vec![], fill: vec![], never: vec![], bound: vec![], v6,
+                            bogus_v4: bind_fails(IpAddr::V4(BOGUS_V4)), bogus_v6: bind_fails(IpAddr::V6(BOGUS_V6)) };
+        let mut rows = named_rows(&tier);
+        let (mut generated, mut unrealizable, mut slow_skipped) = (0usize, 0usize, 0usize);
+        if let Some(vec) = arg(args, "--vec") {
+            for (oc, tmo, conc, allowed) in read_tcpvec(&vec) {
+                // candidates that never answer cost real time: those are covered by the named rows only
+                if oc.iter().any(|o| o == "never") {
+                    slow_skipped += 1;
+                    continue;
+                }
+                match realize(&oc, tmo, conc, allowed) {
+                    Some(row) => {
+                        generated += 1;
+                        rows.push(row);
+                    }
+                    None => unrealizable += 1,
+                }
+            }
+        }
+        if let Some(only) = &only {
+            rows.retain(|r| only.contains(&r.name));
+        }
+        let mut w = std::io::BufWriter::new(std::fs::File::create(&out).unwrap());
+        let (mut n, mut skipped, mut drift) = (0usize, 0usize, 0usize);
+        let mut drift_examples = vec![];
+        for r in &rows {
+            match run_row(&mut env, r, n + 1).await {
+                Some(rec) => {
+                    n += 1;
+                    if rec["conform"] == json!(false) {
+                        drift += 1;
+                        if drift_examples.len() < 5 {
+                            drift_examples.push(rec.clone());
+                        }
+                    }
+                    serde_json::to_writer(&mut w, &rec).unwrap();
+                    w.write_all(b"\n").unwrap();
+                }
+                None => skipped += 1,
+            }
+            // listeners and bound sockets of a finished row are released
+            env.listeners.clear();
+            env.bound.clear();
         }
         w.flush().unwrap();
-        println!("{}", json!({"tcp_scenarios": n, "never_port_available": env.never.is_some()}));
+        println!(
+            "{}",
+            json!({"tcp_runs": n, "named_rows": named_rows(&tier).len(), "generated_from_model": generated, "model_vectors_not_realizable": unrealizable,
+                   "model_vectors_with_silent_candidates_left_to_named_rows": slow_skipped, "skipped_environment": skipped, "drift": drift, "drift_examples": drift_examples,
+                   "ipv6_loopback": env.v6, "bogus_v4_bind_fails": env.bogus_v4, "bogus_v6_bind_fails": env.bogus_v6, "silent_ports": env.never.len()})
+        );
     }
 }
 
@@ -691,9 +934,8 @@ fn main() {
         Some("run") => cmd_run(&args[2..]),
         Some("one") => cmd_one(&args[2..]),
         Some("tcp") => {
-            let out = arg(&args[2..], "--out").expect("--out");
             let rt = tokio::runtime::Builder::new_current_thread().enable_all().build().unwrap();
-            rt.block_on(tcp::run(&out));
+            rt.block_on(tcp::run(&args[2..]));
         }
         _ => {
             eprintln!("usage: eyeballs run|one|tcp ...");
